@@ -204,4 +204,46 @@ def run(rd, emit, log, enum_values, ti_default):
     if ne is None: log.append('C14: EmitIdentifier bare-word test not recognised (empty key: the correspondence run decides)')
     body += '(* EmitIdentifier: true = the bare-word regex needs at least one character; false = it matches the empty string *)\n'
     body += 'Definition f_ps_ident_regex_nonempty : option bool := %s.\n' % ('Some ' + ne if ne else 'None')
+    # ---- DumpProgramState: is every call a dump?  (the retention timer's callback and OnShutdown may call it at the same time)
+    ia = rd('lib/icinga/icingaapplication.cpp')
+    db = _fn_body(ia, r'void\s+IcingaApplication::DumpProgramState\s*\(\s*\)')
+    uncond = None
+    if db is not None:
+        code = re.sub(r'/\*.*?\*/|//[^\n]*', '', db, flags=re.S)
+        first_dump = re.search(r'\bDumpObjects\s*\(', code)
+        if first_dump:
+            before = code[:first_dump.start()]
+            # a statement that can leave the function (or skip the dump) in front of the first write
+            if re.search(r'\breturn\b|\btry_to_lock\b|\btry_lock\b|\bif\s*\(', before): uncond = 'false'
+            elif re.fullmatch(r'\s*(ConfigObject::)?', before) and re.search(r'\bDumpModifiedAttributes\s*\(\s*\)\s*;', code[first_dump.end():]): uncond = 'true'
+    if uncond is None: log.append('C14: DumpProgramState not recognised')
+    body += '(* IcingaApplication::DumpProgramState: true = DumpObjects(StatePath) and DumpModifiedAttributes() are its first statements, executed on EVERY call; false = something in front of them can return / skip (e.g. "another dump is running") *)\n'
+    body += 'Definition f_ps_dump_unconditional : option bool := %s.\n' % ('Some ' + uncond if uncond else 'None')
+    ser = None
+    if db is not None:
+        code = re.sub(r'/\*.*?\*/|//[^\n]*', '', db, flags=re.S)
+        fd = re.search(r'\bDumpObjects\s*\(', code)
+        if fd:
+            before = code[:fd.start()]
+            blocking = re.search(r'static\s+std::(recursive_)?mutex\s+(\w+)\s*;', before)
+            if blocking and re.search(r'std::(unique_lock|lock_guard)\s*<[^>]*>\s*\w+\s*[({]\s*' + blocking.group(2) + r'\s*[)}]\s*;', before) \
+               and not re.search(r'try_to_lock|try_lock|defer_lock|\breturn\b', before): ser = 'true'
+            elif not re.search(r'mutex|lock', before, re.I): ser = 'false'
+    body += '(* DumpProgramState: true = the whole function runs under a BLOCKING lock of a function-local static mutex (calls are serialised: a second caller waits, then dumps); false = no lock at all *)\n'
+    body += 'Definition f_ps_dump_serialised : option bool := %s.\n' % ('Some ' + ser if ser else 'None')
+    sb = _fn_body(ia, r'void\s+IcingaApplication::OnShutdown\s*\(\s*\)')
+    sd = None
+    if sb is not None:
+        code = re.sub(r'/\*.*?\*/|//[^\n]*', '', sb, flags=re.S)
+        # depth-0 statement `DumpProgramState();`
+        depth = 0; top = ''
+        for ch in code:
+            if ch == '{': depth += 1
+            elif ch == '}': depth -= 1
+            elif depth == 0: top += ch
+        if re.search(r'\bDumpProgramState\s*\(\s*\)\s*;', top) and not re.search(r'\breturn\b|\bif\s*\(', top): sd = 'true'
+        elif not re.search(r'\bDumpProgramState\s*\(', code): sd = 'false'
+    if sd is None: log.append('C14: OnShutdown not recognised')
+    body += '(* IcingaApplication::OnShutdown: true = calls DumpProgramState() unconditionally (top-level statement, no return / if in front) *)\n'
+    body += 'Definition f_ps_shutdown_dumps : option bool := %s.\n' % ('Some ' + sd if sd else 'None')
     emit('Facts_c14.v', body)
